@@ -486,7 +486,21 @@ def lambda_rule(cls, body):
         mm = re.fullmatch(r"FBin (B[A-Za-z0-9]+) \(FArg 0\) \(FBin (B[A-Za-z0-9]+) \(FArg 1\) \(FArg 2\)\)", t)
         if not mm:
             raise TrError("lambda %s: dictionary fold of unexpected shape %s" % (cls, t))
-        return "RFoldDict %s %s" % (mm.group(1), mm.group(2))
+        return "RFoldDict %s %s false None" % (mm.group(1), mm.group(2))
+    # dictionary fold with the E case: apply(p.second) first, apply(p.first) only when the key is not E
+    m = re.fullmatch(r"fn tmp = apply\(\*x\.get_coef\(\)\); fn tmp1, tmp2; for \(const auto &p : x\.get_dict\(\)\) \{ "
+                     r"tmp2 = apply\(\*\(p\.second\)\); if \(eq\(\*\(p\.first\), \*E\)\) \{ "
+                     r"tmp = \[=\]\(const T \*x\) \{ return (.*?); \}; \} else \{ tmp1 = apply\(\*\(p\.first\)\); "
+                     r"tmp = \[=\]\(const T \*x\) \{ return (.*?); \}; \} \} result_ = tmp;", b)
+    if m:
+        te = expr_to_fterm(m.group(1), {"tmp": 0, "tmp2": 1}, "x")
+        t = expr_to_fterm(m.group(2), {"tmp": 0, "tmp1": 1, "tmp2": 2}, "x")
+        mm = re.fullmatch(r"FBin (B[A-Za-z0-9]+) \(FArg 0\) \(FBin (B[A-Za-z0-9]+) \(FArg 1\) \(FArg 2\)\)", t)
+        me = re.fullmatch(r"FBin (B[A-Za-z0-9]+) \(FArg 0\) \((.*)\)", te)
+        if not mm or not me or me.group(1) != mm.group(1) or "FArg 0" in me.group(2) or "FArg 2" in me.group(2):
+            raise TrError("lambda %s: dictionary fold of unexpected shape %s / %s" % (cls, t, te))
+        ecase = me.group(2).replace("FArg 1", "FArg 0")
+        return "RFoldDict %s %s true (Some (%s))" % (mm.group(1), mm.group(2), ecase)
     m = re.fullmatch(r"fn exp_ = apply\(\*\(x\.get_exp\(\)\)\); if \(eq\(\*\(x\.get_base\(\)\), \*E\)\) \{ result_ = " + CL + r"; \} "
                      r"else \{ fn base_ = apply\(\*\(x\.get_base\(\)\)\); result_ = " + CL + r"; \}", b)
     if m:
